@@ -664,6 +664,47 @@ func TestCoalescing_SubmitAfterClose(t *testing.T) {
 	assert.NotPanics(t, c.close)
 }
 
+// TestCoalescing_SubmitRacingCloseIsNeverLost races submits against close.
+// A submit that returns nil has handed its message to the writer: by the
+// time close has returned the message must have reached the server (or the
+// error handler), it must not be left behind in the channel because the
+// writer had already done its final drain.
+func TestCoalescing_SubmitRacingCloseIsNeverLost(t *testing.T) {
+	tc, host, port, stop := startCoalescingServer(t)
+	defer stop()
+	dest := net.JoinHostPort(host, strconv.Itoa(port))
+	nc := inet.NewClient(dest)
+	defer nc.Close()
+
+	const rounds, submitters, perSubmitter = 100, 4, 6
+	var accepted, failed atomic.Int64
+	for range rounds {
+		c := newCoalescer(dest, nc, coalescingConfig{
+			maxBatch: 1,
+			errHandler: func(_ string, msgs []*internalpb.RemoteMessage, _ error) {
+				failed.Add(int64(len(msgs)))
+			},
+		})
+		var wg sync.WaitGroup
+		for range submitters {
+			wg.Add(1)
+			go func() {
+				defer wg.Done()
+				for range perSubmitter {
+					if err := c.submit(context.Background(), &internalpb.RemoteMessage{}); err == nil {
+						accepted.Add(1)
+					}
+				}
+			}()
+		}
+		c.close()
+		wg.Wait()
+		assert.Zero(t, len(c.in), "a message was enqueued after the writer's final drain")
+	}
+	assert.Equal(t, accepted.Load(), tc.messages.Load()+failed.Load(),
+		"every accepted message must be flushed or reported by the time close has returned")
+}
+
 // blockingServer is a proto server whose RemoteTellRequest handler parks
 // until release is closed. It lets tests create a coalescer whose writer
 // goroutine is stuck mid-flush — the only way to reliably fill the outbound
